@@ -8,7 +8,8 @@ from vlib.runner import Result, SubCheck, Violation
 
 PROPERTY = "C10"
 LEVEL = "exploration"
-RULE = ("A generated history brings a bandit (any policy pair, n_jobs 1 or 2/threading) to a trained state; a deep "
+RULE = ("One case in six is directed: queries, then a warm start that replaces a cold arm's state, then queries with no training in between (linear policies also on 12 / 16 / 33 features). "
+        "A generated history brings a bandit (any policy pair, n_jobs 1 or 2/threading) to a trained state; a deep "
         "copy is taken; the original answers a burst of 1..4 predict / predict_expectations calls with 1..6 rows; "
         "all random-stream positions are copied original -> copy (path-wise); both then run the same generated "
         "continuation (partial_fit, fit, arm changes, warm_start, queries) and every output must be identical "
